@@ -44,6 +44,7 @@ void vf_nondet_guards(uint32_t fixmask, uint32_t fixval); /* consult count per s
 extern int vf_in_prefix;
 extern uint32_t vf_inputs[VF_NIN];
 extern uint32_t vf_hookmask;
+extern int32_t vf_throw_site, vf_throw_site0;
 extern uint32_t vf_projmask;   /* which classes of behaviour-log entries this property observes */
 #define VF_M_G 1u
 #define VF_M_A 2u
